@@ -412,6 +412,15 @@ def add(node: ir.Node, op, state: OptimizerState) -> ReturnValue:
         state.set_sym_value(output, ir.Shape([result_dim_value]))
 
 
+def _int64_constant(op, values, **kwargs):
+    """Emit an INT64 Constant through its ``value`` attribute.
+
+    The ``value_int`` / ``value_ints`` attributes only exist since opset 12: a Constant that
+    uses them is invalid in models with an older opset.
+    """
+    return op.Constant(value=ir.tensor(np.asarray(values, dtype=np.int64)), **kwargs)
+
+
 @register("Abs")
 def abs(node: ir.Node, op, state: OptimizerState) -> ReturnValue:
     """Replace an Abs node by Identity when applicable.
@@ -456,7 +465,7 @@ def gather(node: ir.Node, op, state: OptimizerState) -> ReturnValue:
     if output is not None:
         state.set_sym_value(output, ir.Shape(gathered))
     if all(isinstance(d, int) for d in gathered):
-        return op.Constant(value_ints=ir.AttrInt64s("value_ints", gathered))
+        return _int64_constant(op, gathered)
     return None
 
 
@@ -548,7 +557,7 @@ def shape(node: ir.Node, op, state: OptimizerState) -> ReturnValue:
     if output is not None:
         state.set_sym_value(output, ir.Shape(shape_slice))
     if all(isinstance(d, int) for d in shape_slice):
-        return op.Constant(value_ints=ir.AttrInt64s("value_ints", list(shape_slice)))
+        return _int64_constant(op, list(shape_slice))
     return None
 
 
@@ -565,7 +574,7 @@ def size(node: ir.Node, op, state: OptimizerState) -> ReturnValue:
         if not isinstance(d, int):
             return None
         size *= d
-    return op.Constant(value_int=size)
+    return _int64_constant(op, size)
 
 
 def _move_initializers_to_graph(src: ir.Graph, dst: ir.Graph) -> None:
@@ -808,7 +817,7 @@ def concat_from_sequence(node: ir.Node, op, state: OptimizerState) -> ReturnValu
             return op.Concat(*inputs, axis=axis)
         if new_axis == 1:
             # Unsqueeze the inputs with concat axis if new_axis is 1
-            axis_value = op.Constant(value_int=axis)
+            axis_value = _int64_constant(op, axis)
             unsqueezed_inputs = []
             unsqueezed_by_input: dict[ir.Value, ir.Value] = {}
             for node_input in inputs:
@@ -918,9 +927,8 @@ def split_to_sequence(node: ir.Node, op, state: OptimizerState) -> ReturnValue:
             # attribute, but not both, so num_outputs is omitted here.
             remainder = split_dimension_size - (num_outputs - 1) * split_size
             explicit_split_sizes = [split_size] * (num_outputs - 1) + [remainder]
-            explicit_split = op.Constant(
-                value_ints=explicit_split_sizes,
-                _outputs=[f"{output.name}_split_sizes"],
+            explicit_split = _int64_constant(
+                op, explicit_split_sizes, _outputs=[f"{output.name}_split_sizes"]
             )
             split_values = op.Split(
                 input,
@@ -944,7 +952,7 @@ def split_to_sequence(node: ir.Node, op, state: OptimizerState) -> ReturnValue:
         return None
     if keepdims == 0:
         # squeeze the split dimension if keepdims is 0
-        axis_val = op.Constant(value_ints=[axis], _outputs=[f"{output.name}_axis"])
+        axis_val = _int64_constant(op, [axis], _outputs=[f"{output.name}_axis"])
         squeezed_values = []
         for i in range(num_outputs):
             squeezed = op.Squeeze(
